@@ -1,5 +1,5 @@
 """C17 — commits and shutdown always complete (pipeline part; see checks/_commit.py)."""
-from checks import _commit
+from checks import _background, _commit
 from vlib import core
 
 MANIFEST = {
@@ -15,7 +15,7 @@ MANIFEST = {
 
 
 def run(ctx):
-    core.build_harness(["commit_sched", "close_race"])
+    core.build_harness(["commit_sched", "close_race", "bg_sched", "visibility_stress"])
     _commit.model_check(ctx, faults=1)
     if not ctx.quick:
         _commit.model_check(ctx, faults=2, txns='{"t1", "t2", "t3", "t4"}', wr="MCWr2")
@@ -26,9 +26,17 @@ def run(ctx):
     if not ctx.quick:
         _commit.replay_schedules(ctx, "edge4", faults=2, txns='{"t1", "t2", "t3", "t4"}', wr="MCWr2",
                                  extra={"MaxSteps": 14})
+    # the background protocol: write stall, flush task, level task, close (spec/background)
+    _background.model_check(ctx)
+    _background.teeth(ctx)
+    _background.replay_schedules(ctx)
+    _background.stall_stress(ctx)
     ctx.cov["exhaustive"] = True
     ctx.cov["rule"] = "edge cover of the bounded Commit state graph; every schedule drained to completion"
 
 
 def replay(ctx, doc):
-    _commit.replay(ctx, doc["replay"])
+    if doc["replay"].get("driver") == "bg_sched":
+        _background.replay(ctx, doc["replay"])
+    else:
+        _commit.replay(ctx, doc["replay"])
